@@ -11,7 +11,7 @@ import ast
 
 from mlmverif import affine as af
 from mlmverif import cfg as cfgm
-from mlmverif.core import (AnalysisError, Ctx, FuncInfo, is_self_attr, unparse,
+from mlmverif.core import (kwarg, AnalysisError, Ctx, FuncInfo, is_self_attr, unparse,
                            walk_no_nested)
 from mlmverif.effects import DIRECT, ELEM, NONE, Effects
 from mlmverif.props._shard import IO, summary
@@ -38,7 +38,7 @@ IU = 'utils.iter_utils'
 
 
 def run(ctx: Ctx):
-  for r in (r1, r2, r3, r4):
+  for r in (r1, r2, r3, r4, r6):
     ctx.guard(r)
   ctx.include('R-C10-5', 'restoring replays the recorded shard chain over the'
               ' unsharded source with the same configuration (R-C09-2); the'
@@ -134,9 +134,23 @@ def r1(ctx: Ctx):
              ' state', node=fs.node)
   # DataIterator: absolute index, skip-until loop
   ds = repo.func(IO, 'DataIterator.state')
-  ok = any(isinstance(x, ast.Return) and isinstance(x.value, ast.Call)
-           and any(k.arg == 'start_index' and unparse(k.value) == 'self._index'
-                   for k in x.value.keywords) for x in walk_no_nested(ds.node))
+  rec = [k.value for x in walk_no_nested(ds.node) if isinstance(x, ast.Return)
+         and isinstance(x.value, ast.Call) for k in x.value.keywords if k.arg == 'start_index']
+  ok = False
+  behind = False
+  for e_ in rec:
+    if isinstance(e_, ast.Name):
+      vals_ = [x.value for x in walk_no_nested(ds.node) if isinstance(x, ast.Assign)
+               and any(isinstance(t, ast.Name) and t.id == e_.id for t in x.targets)]
+      if len(vals_) == 1:
+        e_ = vals_[0]
+    if unparse(e_) == 'self._index':
+      ok = True
+      behind = True   # only right if the index is advanced eagerly on restore
+    elif isinstance(e_, ast.Call) and unparse(e_.func) == 'max' and len(e_.args) == 2:
+      parts = {unparse(a_) for a_ in e_.args}
+      if 'self._index' in parts and any(p_.endswith('.start_index') for p_ in parts):
+        ok = True
   nx = repo.func(IO, 'DataIterator.__next__')
   skip = False
   for x in walk_no_nested(nx.node):
@@ -149,8 +163,15 @@ def r1(ctx: Ctx):
   init = repo.func(IO, 'DataIterator.__init__')
   zero = any(isinstance(x, ast.Assign) and is_self_attr(x.targets[0], '_index')
              and unparse(x.value) == '0' for x in walk_no_nested(init.node))
-  if ok and skip and zero:
-    ctx.ok(rule, ds, 'DataIterator: state records absolute _index; restore skips up to it', ds.node)
+  if ok and skip and zero and behind:
+    ctx.fail(rule, ds, 'DataIterator.state: start_index=max(self._index, <restored start_index>)',
+             'DataIterator starts at _index = 0 and only skips forward to the'
+             ' restored start_index inside __next__, but `state` records the'
+             ' bare _index: a checkpoint taken right after a restore (before'
+             ' the next element is drawn) records position 0 and a second'
+             ' restore replays the whole source', node=ds.node)
+  elif ok and skip and zero:
+    ctx.ok(rule, ds, 'DataIterator: state never behind the restored position; restore skips up to it', ds.node)
   else:
     ctx.fail(rule, ds, 'DataIterator: start_index=self._index / skip while _index < start_index',
              f'absolute-index checkpointing is broken (records index: {ok},'
@@ -329,12 +350,97 @@ def r4(ctx: Ctx):
   ctx.floor(rule, 1)
 
 
+SWALLOWING = ('iter_ignore_error',)
+
+
+def _callee_candidates(fi, f: ast.AST, depth: int = 0) -> list[ast.AST]:
+  """Expressions a called name may stand for (local aliases, conditional expressions)."""
+  if depth > 3:
+    return [f]
+  if isinstance(f, ast.IfExp):
+    return _callee_candidates(fi, f.body, depth + 1) + _callee_candidates(fi, f.orelse, depth + 1)
+  if isinstance(f, ast.Name):
+    vals = [x.value for x in walk_no_nested(fi.node) if isinstance(x, ast.Assign)
+            and any(isinstance(t, ast.Name) and t.id == f.id for t in x.targets)]
+    if vals:
+      out = []
+      for v in vals:
+        out += _callee_candidates(fi, v, depth + 1)
+      return out
+  return [f]
+
+
+def r6(ctx: Ctx):
+  rule = 'R-C10-6'
+  ctx.rule(rule, 'the recorded position counts SOURCE positions: an iterator'
+           ' class that pairs each next() on its inner iterator with one'
+           ' `_index += 1` must not put an element-swallowing wrapper'
+           ' (iter_ignore_error) between the source and that counter unless'
+           ' the wrapper reports each skip with a marker that __next__ counts'
+           ' too — a skipped (failing) record occupies a position; otherwise'
+           ' the captured state lags behind and a restore repeats elements')
+  repo = ctx.repo
+  n = 0
+  for cname in ('SequenceIterator', 'DataIterator'):
+    ci = repo.cls(IO, cname)
+    nx = ci.methods.get('__next__')
+    if nx is None:
+      raise AnalysisError(f'{rule}: {cname}.__next__ not found')
+    for m in ci.methods.values():
+      for x in walk_no_nested(m.node):
+        if not (isinstance(x, ast.Assign) and any(is_self_attr(t, '_it') for t in x.targets)):
+          continue
+        n += 1
+        v = x.value
+        bad = None
+        if isinstance(v, ast.Call):
+          for cand in _callee_candidates(m, v.func):
+            if unparse(cand).split('.')[-1] in SWALLOWING:
+              marker = kwarg(v, 'error_return')
+              if marker is None and len(v.args) > 1:
+                marker = v.args[1]
+              if marker is None or (isinstance(marker, ast.Constant) and marker.value is None):
+                bad = (f'`{unparse(cand)}` swallows failing records without reporting them')
+              else:
+                mk = unparse(marker)
+                counted = any(isinstance(c, ast.Compare) and isinstance(c.ops[0], (ast.Is, ast.IsNot))
+                              and unparse(c.comparators[0]) == mk for c in ast.walk(nx.node))
+                if not counted:
+                  bad = (f'`{unparse(cand)}` reports skips as `{mk}` but {cname}.__next__ never'
+                         ' tests for it')
+        if bad:
+          ctx.fail(rule, m, f'{cname}: position counter over the inner iterator counts skipped records',
+                   f'{cname}.{m.name} builds the inner iterator so that {bad}: each'
+                   ' skipped record advances the source by one position that'
+                   ' `_index` does not count, so `state` lags behind and a'
+                   ' restore re-delivers elements that were already delivered',
+                   node=x)
+        else:
+          ctx.ok(rule, m, f'{cname}.{m.name}: inner iterator keeps one position per counted step', x)
+  ctx.floor(rule, 2, n)
+
+
 from mlmverif.selfcheck import B, OK  # noqa: E402
 
 _F = 'chainables/io.py'
 _T = 'chainables/transform.py'
 _U = 'utils/iter_utils.py'
 VARIANTS = [
+    B('revert-state-not-behind-restore', _F,
+      '    start_index = max(self._index, self.config.state.start_index)\n    return dc.replace(self.config.state, start_index=start_index)',
+      '    return dc.replace(self.config.state, start_index=self._index)', 'R-C10-1'),
+    B('revert-skip-marker', _F,
+      '      self._it = iter_utils.iter_ignore_error(self._it, error_return=_SKIPPED)',
+      '      self._it = iter_utils.iter_ignore_error(self._it)', 'R-C10-6'),
+    B('skip-marker-not-counted', _F,
+      '    while (result := next(self._it)) is _SKIPPED:\n      self._index += 1\n    self._index += 1',
+      '    result = next(self._it)\n    self._index += 1', 'R-C10-6'),
+    B('skip-marker-dropped-without-counting', _F,
+      '    while (result := next(self._it)) is _SKIPPED:\n      self._index += 1\n    self._index += 1',
+      '    while (result := next(self._it)) is _SKIPPED:\n      pass\n    self._index += 1', 'R-C10-5'),
+    OK('skip-marker-explicit-loop', _F,
+       '    while (result := next(self._it)) is _SKIPPED:\n      self._index += 1\n    self._index += 1',
+       '    result = next(self._it)\n    self._index += 1\n    while result is _SKIPPED:\n      result = next(self._it)\n      self._index += 1'),
     B('state-relative-only', _F,
       '    start_index = self._index - self.config.start + self.config.state.start_index',
       '    start_index = self._index - self.config.start', 'R-C10-1'),
